@@ -43,7 +43,11 @@ func revCountScenario(c *sup.Ctx) {
 
 // refusedWriteScenario: writes refused inside their transaction by an expression index (conc.RefusedWriteRun).
 func refusedWriteScenario(c *sup.Ctx) {
-	r := rng.New(c.Seed, rng.HashString("C17refused"), uint64(c.Local))
+	stream := "C17refused"
+	if c.Prop != "C17" {
+		stream = c.Prop + "refused"
+	}
+	r := rng.New(c.Seed, rng.HashString(stream), uint64(c.Local))
 	disk := c.Local%2 == 1
 	variant := (c.Local / 2) % 3
 	coll := (c.Local / 6) % 2
@@ -73,7 +77,14 @@ func refusedWriteScenario(c *sup.Ctx) {
 		if kind == "setup" {
 			c.Incon(text)
 		} else {
-			c.Viol([]string{"C17"}, "refused-write|"+kind, text, detail)
+			props := []string{"C17"}
+			switch kind {
+			case "refused-frame":
+				props = []string{"C01"}
+			case "refused-event", "event-count":
+				props = []string{"C17", "C08"}
+			}
+			c.Viol(props, "refused-write|"+kind, text, detail)
 		}
 	}
 	c.Sample(map[string]any{"disk": disk, "collection": coll, "result": res})
